@@ -744,7 +744,15 @@ def judge_damage(ctx, data, op, base_entries=None, check="damage"):
     path = os.path.join(ctx.scratch.path, "damage.idx")
     with open(path, "wb") as f:
         f.write(bad)
+    # the reader's own skip_hash setting (index.skipHash / feature.manyFiles in the repository that opens the file) says how
+    # *it* writes; a file that carries a real checksum is verified all the same.  Every fourth damage is read that way too.
+    rskip = (op[1] + op[2]) % 4 == 0
     r = dulwich_read(path)
+    if r[0] == "raise" and rskip:
+        r = dulwich_read(path, skip_hash=True)
+        ctx.label("damage:reader-with-skip_hash")
+    else:
+        rskip = False
     if r[0] == "raise":
         return True
     if base_entries is None:
@@ -766,12 +774,14 @@ def judge_damage(ctx, data, op, base_entries=None, check="damage"):
     else:
         with open(path, "wb") as f:
             f.write(bad + b"\xaa" * 70000)
-        if dulwich_read(path)[0] == "raise":
+        if dulwich_read(path, skip_hash=rskip)[0] == "raise":
             cls = "reader-runs-into-eof"
+    if rskip:
+        cls += ":reader-with-skip_hash"
     what = f"truncating the {len(data)}-byte file to {op[1]} bytes" if op[0] == "cut" else f"xor {op[2]:#04x} into byte {op[1]} of {len(data)}"
     ctx.fail(
         f"C11:damage-accepted:{cls}",
-        f"{what} is not detected: Index(path) returns {'the original' if same else 'DIFFERENT'} entries without an error "
+        f"{what} is not detected: Index(path{', skip_hash=True' if rskip else ''}) returns {'the original' if same else 'DIFFERENT'} entries without an error "
         f"({[e.path[-30:] for e in r[1]][:4]!r})",
         check,
         dict(data=data, op=op),
